@@ -109,7 +109,7 @@ def nontrivial_key(evs):
 _GRAPHS = {}
 
 
-def stage_b(ctx, front, cfgp, label, max_len=30, max_paths=None, devs=(), vmap=None, graph_key=None):
+def stage_b(ctx, front, cfgp, label, max_len=30, max_paths=None, devs=(), vmap=None, graph_key=None, report_devs=True):
     """Transition cover of the NdnPitMC graph for cfgp, executed on `front`. With graph_key the dumped
     graph and its cover are shared between front-ends (the graphs are isomorphic up to verdict names: vmap)."""
     if graph_key and graph_key in _GRAPHS:
@@ -136,7 +136,7 @@ def stage_b(ctx, front, cfgp, label, max_len=30, max_paths=None, devs=(), vmap=N
         ctx.sample({'kind': 'B-schedule', 'front': front, 'events': [[e['a']] + [e.get(k) for k in ('e', 'v', 'env') if k in e] for e in recs[len(recs) // 2]['ev']]}, limit=4)
     ctx.traces += len(recs)
     ctx.evaluations += len(recs)
-    judge.judge(ctx, 'NdnPitTrace', lambda dev: trace_cfg(front, dev), recs, front, 'pitB-%s-%s' % (ctx.prop, front), devs=devs)
+    judge.judge(ctx, 'NdnPitTrace', lambda dev: trace_cfg(front, dev), recs, front, 'pitB-%s-%s' % (ctx.prop, front), devs=devs, report_devs=report_devs)
     return len(recs)
 
 
@@ -240,7 +240,7 @@ def random_schedule(rng, front, n_events, weights=None, junk=None, verdicts=None
             'data': ds or [{'name': ['zz'], 'id': 99}], 'ev': evs}
 
 
-def stage_c(ctx, front, n, n_events, devs=(), **kw):
+def stage_c(ctx, front, n, n_events, devs=(), report_devs=True, **kw):
     recs = []
     for i in range(n):
         rec = random_schedule(ctx.rng, front, n_events, **kw)
@@ -253,5 +253,5 @@ def stage_c(ctx, front, n, n_events, devs=(), **kw):
                     'events': [[e['a']] + [e.get(k) for k in ('e', 'v', 'env') if k in e] for e in recs[0]['ev']][:30]}, limit=6)
     ctx.traces += len(recs)
     ctx.evaluations += len(recs)
-    judge.judge(ctx, 'NdnPitTrace', lambda dev: trace_cfg(front, dev), recs, front, 'pitC-%s-%s' % (ctx.prop, front), devs=devs)
+    judge.judge(ctx, 'NdnPitTrace', lambda dev: trace_cfg(front, dev), recs, front, 'pitC-%s-%s' % (ctx.prop, front), devs=devs, report_devs=report_devs)
     return recs
